@@ -34,6 +34,9 @@ pub struct Script {
     /// decode the on-disk image at every quiescent point (C16 / C19)
     #[serde(default)]
     pub decode: bool,
+    /// with `decode`: write out the page lists (live, free, free list page by page) whatever their size
+    #[serde(default)]
+    pub decode_full: bool,
 }
 
 pub struct World<T: HashAlgorithm> {
@@ -53,6 +56,7 @@ pub struct World<T: HashAlgorithm> {
     pub decode: bool,
     /// omit page lists from the decoder observation (crash images: thousands per run)
     pub decode_lite: bool,
+    pub decode_full: bool,
 }
 
 pub fn classify_err(e: &anyhow::Error) -> String {
@@ -109,6 +113,7 @@ impl<T: HashAlgorithm> World<T> {
             root_ids: HashMap::new(),
             decode: false,
             decode_lite: false,
+            decode_full: false,
         };
         w.open()?;
         Ok(w)
@@ -229,8 +234,10 @@ impl<T: HashAlgorithm> World<T> {
         let leak = d.problems.iter().any(|p| p.contains("leak"));
         let other: Vec<&String> = d.problems.iter().filter(|p| !p.contains("leak")).collect();
         let alloc = |a: &crate::decode::FileAlloc| {
-            if a.bump <= 400 && !self.decode_lite {
-                json!({"bump": a.bump, "free": a.free, "fl": a.fl_pages, "live": a.live})
+            if (a.bump <= 400 || self.decode_full) && !self.decode_lite {
+                // "flp": the free list page by page (head first) for FreeListTrace
+                json!({"bump": a.bump, "free": a.free, "fl": a.fl_pages, "live": a.live,
+                       "flp": a.fl_portions.iter().map(|(pn, items)| json!([pn, items])).collect::<Vec<_>>()})
             } else {
                 json!({"bump": a.bump, "nfree": a.free.len(), "nfl": a.fl_pages.len(), "nlive": a.live.len()})
             }
@@ -398,6 +405,7 @@ pub fn run_script<T: HashAlgorithm>(sc: &Script, scratch: &Path, out: &mut dyn W
     let _ = std::fs::remove_dir_all(&dir);
     let mut w: World<T> = World::new(dir.clone(), sc.cfg.clone(), sc.conc.clone())?;
     w.decode = sc.decode;
+    w.decode_full = sc.decode_full;
     let st0 = w.observe();
     writeln!(
         out,
